@@ -150,6 +150,10 @@ def run_check(prop: str, tier: str) -> int:
         seen_classes.add(key)
         violations.append((r, key))
 
+    for r in corpus_results + results:
+        for k, v in (r.get("probes") or {}).items():
+            if k.startswith("known:") and v:
+                known_hit[k[6:]] += 1
     printed = []
     reported = 0
     n_viol = 0
